@@ -5,7 +5,7 @@ package evaluator
 // Contracts for the deductive verifier in /verif (comment-only; compiled only with -tags verif).
 //
 // ---- C11: indexing and slicing ------------------------------------------------------------
-//@ props C11
+//@ props C11 C01
 //
 // clampIdx: CPython's PySlice_AdjustIndices for one bound of a sequence of length n:
 // negative bounds count from the end; out-of-range bounds are clamped to the ends of the sequence in
@@ -56,3 +56,34 @@ package evaluator
 //@   loop 1 invariant step != 0 && 0 - size - 1 <= step && step <= size + 1
 //@   loop 1 invariant step > 0 ==> 0 <= i && i <= size + step && stop <= size
 //@   loop 1 invariant step < 0 ==> i <= size - 1 && i >= step - 1 && stop >= 0 - 1
+//
+//@ func evaluator.arrRange(r, arr) res
+//@   requires r != nil && arr != nil && isVal(r.Start) && isVal(r.Stop) && isVal(r.Step)
+//@   ensures  res != nil
+//@   assigns  nothing
+//
+//@ func evaluator.strRange(r, runes) res
+//@   requires r != nil && isVal(r.Start) && isVal(r.Stop) && isVal(r.Step)
+//@   ensures  res != nil
+//@   assigns  nothing
+//
+// wfRange: the three bounds of a range value are values (established by evalRange / NewPanRange callers).
+//@ spec fun wfRange(r *object.PanRange) bool = r != nil && isVal(r.Start) && isVal(r.Stop) && isVal(r.Step)
+//@ spec fun wfArr(a *object.PanArr) bool = a != nil && (forall k int :: {a.Elems[k]} 0 <= k && k < len(a.Elems) ==> isVal(a.Elems[k]))
+//@ spec fun argsOK(args []object.PanObject) bool = forall i int :: {args[i]} 0 <= i && i < len(args) ==> isVal(args[i])
+//
+//@ func evaluator.findElemInArr(env, kwargs, args) res
+//@   requires argsOK(args)
+//@   requires forall o object.PanObject :: {traceArr(o)} traceArr(o) != nil ==> wfArr(traceArr(o))
+//@   requires forall o object.PanObject :: {traceRange(o)} traceRange(o) != nil ==> wfRange(traceRange(o))
+//@   let self := traceArr(args[0])
+//@   let ix := traceArr(args[1])
+//@   let n := len(args)
+//@   ensures n >= 2 && self != nil && ix != nil && len(ix.Elems) >= 1 && traceInt(ix.Elems[0]) != nil && 0 <= traceInt(ix.Elems[0]).Value && traceInt(ix.Elems[0]).Value < len(self.Elems) ==> res == self.Elems[traceInt(ix.Elems[0]).Value]
+//@   ensures n >= 2 && self != nil && ix != nil && len(ix.Elems) >= 1 && traceInt(ix.Elems[0]) != nil && traceInt(ix.Elems[0]).Value >= len(self.Elems) ==> res == object.BuiltInNil
+//@   ensures n >= 2 && self != nil && ix != nil && len(ix.Elems) == 0 ==> res == object.BuiltInNil
+//
+//@ func evaluator.findElemInStr(env, kwargs, args) res
+//@   requires argsOK(args)
+//@   requires forall o object.PanObject :: {traceArr(o)} traceArr(o) != nil ==> wfArr(traceArr(o))
+//@   requires forall o object.PanObject :: {traceRange(o)} traceRange(o) != nil ==> wfRange(traceRange(o))
